@@ -24,7 +24,7 @@ LEVEL_TEXT = ("All cold-start runs with 1 <= steps <= 9 (thorough 22), 1 <= peri
 LEVEL_NOTE = "Exhaustive only within the stated bounds (evidence sets exhaustive: true); durations are whole numbers of steps as the property's quantifier (number of steps) states."
 RULE = ("case = (steps, period, layout, particle variables, direction); inside a case every numrec value is run and compared with the unsplit run. "
         "Non-trivial: steps % period != 0 or the records do not fill the last file; distinct by the tuple.")
-MANDATORY = ["output_period_of_a_day_or_more_as_ISO_8601_string", "start_time_not_a_multiple_of_the_output_period", "integer_particle_variable_in_output", "reference_time_decades_before_the_run", "lonlat_in_output_and_empty_state_output_time", "steps_not_multiple_of_period", "last_file_partial", "last_file_full", "single_record_run", "sparse", "dense", "reversed", "forward", "split_vs_unsplit_records", "output_times_with_empty_state", "prototype_with_number", "ncargs_data_model_given"]
+MANDATORY = ["more_than_256_records_in_a_file", "output_period_of_a_day_or_more_as_ISO_8601_string", "start_time_not_a_multiple_of_the_output_period", "integer_particle_variable_in_output", "reference_time_decades_before_the_run", "lonlat_in_output_and_empty_state_output_time", "steps_not_multiple_of_period", "last_file_partial", "last_file_full", "single_record_run", "sparse", "dense", "reversed", "forward", "split_vs_unsplit_records", "output_times_with_empty_state", "prototype_with_number", "ncargs_data_model_given"]
 EXHAUSTIVE = {"quick": True, "thorough": True}
 ASSUMPTIONS = ["cold start only (warm start is C08)"]
 TIMEOUT = {"quick": 900, "thorough": 3400}
@@ -38,6 +38,10 @@ def gen_cases(tier: str, seed: int) -> list[dict[str, Any]]:
     cases = []
     for ns, p, layout, pv, rev in itertools.product(NS, PS, ["sparse", "dense"], [True, False], [False, True]):
         cases.append(dict(nsteps=ns, period=p, layout=layout, pvars=pv, reversed=rev, numrecs=NR, seed=seed))
+    # files with more than 256 records (unsplit, and split after 260 records)
+    cases.append(dict(nsteps=300, period=1, layout="sparse", pvars=True, reversed=False, numrecs=[0, 260], seed=seed))
+    if tier != "quick":
+        cases.append(dict(nsteps=530, period=2, layout="dense", pvars=True, reversed=True, numrecs=[0, 257], seed=seed))
     return cases
 
 
@@ -75,6 +79,7 @@ def run_case(case: dict[str, Any], wd: Path) -> dict[str, Any]:
     nrec = len(range(0, ns, P))
     sit["steps_not_multiple_of_period"] = int(ns % P != 0)
     sit["single_record_run"] = int(nrec == 1)
+    sit["more_than_256_records_in_a_file"] = int(nrec > 256)
     sit[case["layout"]] = 1
     sit["reversed" if rev else "forward"] = 1
     late = min(ns - 1, 2)
